@@ -74,5 +74,31 @@ fn c10_push_data_is_not_a_jumpdest() {
         }
         if !is_jd(&t, n as u32 + 1) { witness("C10", "dis.jumpdest_kept", format!("{v:02x?} offset {}", n + 1), "not JumpDest".into(), "JumpDest".into()); }
     }
+    // a PUSH cut short by the end of the code: the bytes present are push data too, never instructions
+    for n in 1..=32usize {
+        for k in 0..n {
+            for fill in [0x5bu8, 0x60, 0x00] {
+                let mut v = vec![0x00, 0x5f + n as u8];
+                v.extend(std::iter::repeat(fill).take(k));
+                let Ok(is) = InstructionStream::try_from(v.as_slice()) else { continue };
+                let t = is.new_thread(0).unwrap();
+                for i in 1..v.len() as u32 {
+                    if is_jd(&t, i) { witness("C10", "dis.truncated_push_data_are_not_instructions", format!("{v:02x?} offset {i}"), "JumpDest".into(), "Invalid".into()); }
+                    let b = t.instruction(i).unwrap().as_ref().encode();
+                    if b != vec![v[i as usize]] { witness("C10", "dis.truncated_push_is_invalid_bytes", format!("{v:02x?} offset {i}"), format!("{b:02x?}"), format!("[{:02x}]", v[i as usize])); }
+                }
+            }
+        }
+    }
     println!("CASES c10_push_data 32");
+}
+
+/// "random strings up to the 24 KiB contract limit" and beyond: size alone never makes disassembly fail
+#[test]
+fn c10_large_inputs_disassemble() {
+    for len in [24575usize, 24576, 24577, 49152, 70000] {
+        let v: Vec<u8> = (0..len).map(|i| (i * 7 + 1) as u8).collect();
+        check(&v);
+    }
+    println!("CASES c10_large 5");
 }
